@@ -85,6 +85,9 @@ class CodeGet:
         finally:
             F.abs_positive = False
 
+    def levicivita4(self):
+        return untens(self.rel.levicivita_down4())
+
     def weyl_branch(self, cached):
         rel = make_rel(self.env, self.U)
         if cached:
@@ -133,6 +136,12 @@ class NativeGet:
 
     def __getitem__(self, k):
         return self._c(self.rel[k])
+
+    def tetrad(self):
+        return tuple(self._c(v) for v in self.rel.tetrad_base())
+
+    def levicivita4(self):
+        return self._c(self.rel.levicivita_down4())
 
     def weyl_branch(self, cached):
         rel = self._make()
@@ -387,7 +396,18 @@ def L_tetrad_fluid(g):
     out = [('e0 = u', es[0], g['uup4'])]
     for i, j in itertools.combinations_with_replacement(range(4), 2):
         out.append((f'tetrad e{i}.e{j} = eta', E('a,b,ab->', es[i], es[j], gd), eta[i] if i == j else 0))
+    # handedness: the Weyl scalars of a left-handed tetrad are the complex conjugates, so "the invariants do not depend on the
+    # tetrad" needs both choices to have the orientation of the volume form (the quasi-Kinnersley one has it: L_tetrad_orientation)
+    if hasattr(g, 'levicivita4'):
+        out.append(('tetrad is right-handed: eps_abcd e0^a e1^b e2^c e3^d = +1', E('abcd,a,b,c,d->', g.levicivita4(), es[0], es[1], es[2], es[3]), 1))
     return out
+
+
+def L_tetrad_orientation(g):
+    """sign of the volume form on the served tetrad (quasi-Kinnersley: orthonormal only for the spatial metric, so the value is not 1)"""
+    es = g.tetrad()
+    v = E('abcd,a,b,c,d->', g.levicivita4(), es[0], es[1], es[2], es[3])
+    return [('tetrad is right-handed: sign of eps_abcd e0^a e1^b e2^c e3^d is +', v / abs(v), 1)]
 
 
 ALGEBRA_LEMMAS = [('inverse', L_inverse), ('determinants', L_dets), ('3+1 form of g', L_3p1), ('normal', L_normal),
@@ -419,7 +439,8 @@ def numeric_lemma_obligations(R, seed, lemmas, scens, relkw=None, tol=1e-9):
                 R.numeric.append(dict(obligation=f'lemma.{lname}:{label}[{scen}]', residual=worst))
                 R.ob(f'lemma.{lname}:{label}[{scen}|code|float64]', lname, 'numeric-ok' if ok else 'refuted', 'float64-jets',
                      (time.time() - t0) / max(len(rows), 1), f'residual {worst:.2e}', None if ok else [label],
-                     bounded='numeric: one float64 sample point, residual tolerance 1e-9')
+                     bounded='numeric: one float64 sample point, residual tolerance 1e-9',
+                     replay=(lambda o, fn=fn, label=label, scen=scen: native_lemma_replay(fn, label, scen, seed, relkw)))
 
 
 def lemma_obligations(R, worlds, lemmas, scens, npoints=1, backend='pit-exact', kinds=('spec', 'code'), relkw=None):
